@@ -91,7 +91,7 @@ func (o *orC10) onSQL(ev *SQLEvent) {
 		return
 	}
 	cfg := &m.s.spec.Cfg
-	if (strings.HasPrefix(q, "RESET SLAVE ALL") || strings.HasPrefix(q, "RESET REPLICA ALL")) && m.switchRaw == "" && ev.Dst != m.master {
+	if (strings.HasPrefix(q, "RESET SLAVE ALL") || strings.HasPrefix(q, "RESET REPLICA ALL")) && ev.Applied && m.switchRaw == "" && ev.Dst != m.master {
 		m.probe("c10_reset_replica_by_repair")
 		if !cfg.AggressiveRepair {
 			m.violate("C10", "reset_without_aggressive", "replica-reset-without-aggressive-mode", fmt.Sprintf("%s reset replication configuration of %s although aggressive repair is off", ev.Src, ev.Dst))
